@@ -24,6 +24,15 @@ func init() {
 			{ID: "C04.R1", Text: "position writer: Store ⇔ inRange ∧ (¬found ∨ new ≥ cur) [new = cur may go either way]; TrackOffset(vbID, offset) immediately after every Store and never otherwise; no effect when out of range", Run: c04r1},
 			{ID: "C04.R2", Text: "VbIDRange.In ⇔ Start ≤ vbID ≤ End; Open sets Start/End from the first/last assigned vBucket; the writer tests the range field read at call time", Run: c04r2},
 			{ID: "C04.R3", Text: "every map operation in the position writer uses the parameter vbID as key", Run: c04r3},
+			{ID: "C04.R5", Text: "positions are values of their own event: every wrapper's Offset is a fresh literal built from that event and no offset is mutated or reused in place (same rule as C03.R4)", Run: c03r4},
+			{ID: "C04.R6", Text: "written by the next save: the dump's seqNo is the tracked offset's seqNo under the tracked key, for every tracked vBucket (same rules as C01.R5, C02.R2 dump-all)", Run: func(c *Ctx, id string) {
+				c01r5(c, id)
+				for _, sv := range c.W.implsOf("stream", "Checkpoint", "Save") {
+					if sd := findSaveDump(c, id, sv); sd != nil {
+						dumpAll(c, id, sv, sd)
+					}
+				}
+			}},
 			{ID: "C04.R4", Text: "the position map has no other writer (same rule as C01.R1)", Run: c01r1},
 		},
 	})
